@@ -125,6 +125,10 @@ def tree_cases(run, rng, k):
     hps = [int(rng.integers(0, 20)) for _ in inds]
     if k % 4 == 3 and nslab > 1:
         hps[0] = 0
+    if k % 4 == 1:
+        # superslab numbers of four digits (file names halo_info_1000.asdf ...) next to three-digit ones
+        inds = inds + [1000 + inds[0], 1000 + inds[0] + 7]
+        hps = hps + [int(rng.integers(1, 20)), int(rng.integers(0, 20))]
     truth = gen_catalog.make_tree(rng, slab_inds=inds, halos_per_slab=hps, compression=[None, 'zlib', None, 'blsc'][k % 4], cleaned_away_prob=0.3, zero_part_prob=0.25, smallratio=True, clean_layout=[1, 3, 2, 4][k % 4])
     try:
         fsets = file_sets(rng, truth)
@@ -316,12 +320,18 @@ def lc_cases(run, rng, k):
 def big_superslab_case(run, rng):
     """A superslab with more halos than any internal block size of the compaction (2^15, 2^16): masks that drop a few early
     rows and keep long runs afterwards, so that every kept row has to move."""
-    H = 70001
-    truth = gen_catalog.make_tree(rng, slab_inds=[0, 1], halos_per_slab=[H, 9], cleaned_away_prob=0.05, zero_part_prob=0.5, max_np=3, merge_prob=0.1, smallratio=True)
+    for H, confs in ((70001, ((True, False, ['N', 'id', 'x_com']), (False, dict(A=True, pid=True), ['id', 'N']), (True, dict(B=True, pos=True), 'DEFAULT_FIELDS'))),
+                     (270001, ((False, False, ['N', 'id', 'x_com']), (True, False, ['id', 'v_com', 'N'])))):  # beyond 2^18 rows as well
+        _big_superslab(run, rng, H, confs)
+
+
+def _big_superslab(run, rng, H, confs):
+    small = H < 100000
+    truth = gen_catalog.make_tree(rng, slab_inds=[0, 1], halos_per_slab=[H, 9], cleaned_away_prob=0.05, zero_part_prob=0.5 if small else 1.0, max_np=3, merge_prob=0.1 if small else 0.0, smallratio=True)
     try:
-        for cleaned, sub, fields in ((True, False, ['N', 'id', 'x_com']), (False, dict(A=True, pid=True), ['id', 'N']), (True, dict(B=True, pos=True), 'DEFAULT_FIELDS')):
+        for cleaned, sub, fields in confs:
             base_kw = dict(cleaned=cleaned, subsamples=sub, fields=fields)
-            desc0 = dict(tree='big-superslab', halos_per_slab=[H, 9], cleaned=cleaned, subsamples=repr(sub), fields=fields)
+            desc0 = dict(tree='big-superslab', halos_per_slab=[H, 9], numba_threads=16, cleaned=cleaned, subsamples=repr(sub), fields=fields)
             run.ev()
             run.count('loads')
             full, err = catoracle.load(truth['path'], **base_kw)
@@ -347,7 +357,7 @@ def big_superslab_case(run, rng):
                 if err is not None:
                     run.violation('filter-load-fails-' + type(err).__name__, dict(error=str(err)[:300], **desc))
                     continue
-                run.nt(('big-superslab', cleaned, repr(sub), label))
+                run.nt(('big-superslab', H, cleaned, repr(sub), label))
                 allmask = np.concatenate(masks)
                 if len(got.halos) != int(allmask.sum()):
                     run.violation('filter-row-count', dict(rows=len(got.halos), expected=int(allmask.sum()), **desc))
